@@ -71,12 +71,13 @@ Cross(C, zfo, t) ==
 \* result of a walk: ok = FALSE means the ideal swap cannot complete (ran out of ticks)
 Acc0 == [ok |-> TRUE, in |-> RZero, out |-> RZero, fee |-> RZero, nb |-> 0, steps |-> <<>>]
 
-\* steps: one record per bucket touched: [liq, fee, in, out, tick (crossed or 0), crossed]
-AddStep(acc, L, in, out, fee, t, crossed) ==
+\* steps: one record per bucket touched: [liq, fee, in, out, tick (crossed or 0), crossed,
+\* at = the current tick while the step ran (positions with lo <= at < hi were active)]
+AddStep(acc, L, in, out, fee, t, crossed, at) ==
     [acc EXCEPT !.in = RNorm(RAdd(acc.in, RAdd(in, fee))), !.out = RNorm(RAdd(acc.out, out)),
                 !.fee = RNorm(RAdd(acc.fee, fee)),
                 !.nb = IF RIsZero(in) /\ RIsZero(out) THEN acc.nb ELSE acc.nb + 1,
-                !.steps = Append(acc.steps, [liq |-> L, fee |-> fee, in |-> in, out |-> out, tick |-> t, crossed |-> crossed])]
+                !.steps = Append(acc.steps, [liq |-> L, fee |-> fee, in |-> in, out |-> out, tick |-> t, crossed |-> crossed, at |-> at])]
 
 FeeOn(C, net) == IF RIsZero(C.f) THEN RZero ELSE RDiv(RMul(net, C.f), RSub(ROne, C.f))
 
@@ -99,12 +100,12 @@ WalkIn(C, zfo, rem, acc) ==
           THEN LET fee == FeeOn(C, need)
                    out == IF zfo THEN Amt1(L, b, a) ELSE Amt0(L, a, b)
                    C1  == IF hit THEN Cross(C, zfo, t) ELSE [C EXCEPT !.sqrt = b]
-               IN  WalkIn(C1, zfo, RNorm(RSub(rem, RAdd(need, fee))), AddStep(acc, L, need, out, fee, t, hit))
+               IN  WalkIn(C1, zfo, RNorm(RSub(rem, RAdd(need, fee))), AddStep(acc, L, need, out, fee, t, hit, C.tick))
           ELSE \* the input runs out inside this bucket (L > 0 here, since need > net >= 0)
                LET a1  == IF zfo THEN RDiv(RMul(L, a), RAdd(L, RMul(net, a))) ELSE RAdd(a, RDiv(net, L))
                    out == IF zfo THEN Amt1(L, a1, a) ELSE Amt0(L, a, a1)
                    fee == RSub(rem, net)
-               IN  [AddStep(acc, L, net, out, fee, 0, FALSE) EXCEPT !.ok = TRUE]
+               IN  [AddStep(acc, L, net, out, fee, 0, FALSE, C.tick) EXCEPT !.ok = TRUE]
                       @@ [end |-> [C EXCEPT !.sqrt = RNorm(a1)], left |-> RZero]
 
 IdealIn(C, zfo, amt) == WalkIn(C, zfo, amt, Acc0)      \* amt : rational
@@ -127,11 +128,11 @@ WalkOut(C, zfo, rem, acc) ==
           THEN LET in  == IF zfo THEN Amt0(L, b, a) ELSE Amt1(L, a, b)
                    fee == FeeOn(C, in)
                    C1  == IF hit THEN Cross(C, zfo, t) ELSE [C EXCEPT !.sqrt = b]
-               IN  WalkOut(C1, zfo, RNorm(RSub(rem, maxOut)), AddStep(acc, L, in, maxOut, fee, t, hit))
+               IN  WalkOut(C1, zfo, RNorm(RSub(rem, maxOut)), AddStep(acc, L, in, maxOut, fee, t, hit, C.tick))
           ELSE LET a1  == IF zfo THEN RSub(a, RDiv(rem, L)) ELSE RDiv(RMul(L, a), RSub(L, RMul(rem, a)))
                    in  == IF zfo THEN Amt0(L, a1, a) ELSE Amt1(L, a, a1)
                    fee == FeeOn(C, in)
-               IN  [AddStep(acc, L, in, rem, fee, 0, FALSE) EXCEPT !.ok = TRUE]
+               IN  [AddStep(acc, L, in, rem, fee, 0, FALSE, C.tick) EXCEPT !.ok = TRUE]
                       @@ [end |-> [C EXCEPT !.sqrt = RNorm(a1)], left |-> RZero]
 
 IdealOut(C, zfo, amt) == WalkOut(C, zfo, amt, Acc0)
